@@ -314,6 +314,10 @@ fn run_one(sc: &Scenario, start: &(Content, Model), ch: &mut Chooser, keep_label
     }
     ctl.clear_labels();
     ctl.keep_labels(true);
+    // two scheduling points per backend call: before its effect, and after
+    // the effect but before the result is delivered to the caller (a response
+    // in flight while other tasks run)
+    ctl.set_post_gate(true);
     ctl.set_gate(true);
 
     let n_tasks = 1 + sc.writers.len();
@@ -775,7 +779,9 @@ fn main() {
     let passes: Vec<(usize, u32, f64)> = if thorough {
         vec![(1, 3, 0.0), (2, 2, 0.0), (1, 4, 6.0), (1, 5, 4.0), (1, 6, 3.0), (2, 3, 14.0), (1, 7, 3.0)]
     } else {
-        vec![(1, 2, 0.0), (2, 2, 0.0)]
+        // two-writer scenarios are the largest: bound 1 in the quick tier since
+        // the post-effect gate doubled the scheduling points per backend call
+        vec![(1, 2, 0.0), (2, 1, 0.0)]
     };
     let mut committed: BTreeMap<usize, Pass> = BTreeMap::new();
     let mut last_cost: BTreeMap<usize, f64> = BTreeMap::new();
@@ -904,12 +910,12 @@ fn main() {
         "scenario = wrapper x start state with garbage {both keys, b absent, legacy a} x clock {advancing, frozen during the race} x \
          writers {one of put/multipart-complete/copy/delete/rename on either key; or two of them (same and different keys)} x \
          {writers through the collector's instance; writers through a second instance first polled after the collector captured its floor}; \
-         per scenario every schedule of collect_garbage || writers at inner-store-call granularity up to the preemption bound \
+         per scenario every schedule of collect_garbage || writers up to the preemption bound, with two scheduling points per inner-store call (before its effect; after the effect, before the result is delivered) \
          (one evaluation = one execution on the real code, judged by: no collector delete of a referenced payload, after every single inner-store mutation every commit point's payload exists (= every crash point of the interleaved run), \
          live and cold instances read the same complete values, final state explained by an order of the operations' commit steps consistent with return order, \
          a further quiescent collection changes nothing); distinct non-trivial = distinct sequences of backend calls (generation ids renamed by first appearance) per scenario",
     );
-    run.assume("suspension happens only at inner-store calls and async locks; code between two backend calls is atomic (single-threaded cooperative schedule)");
+    run.assume("suspension happens only at inner-store calls (before the effect and before the delivery of the result) and async locks; code between two such points is atomic (single-threaded cooperative schedule)");
     run.assume("writers through a second wrapper instance start after the collection started (the crate's documented cross-instance contract); an earlier foreign writer is outside the guarantee");
     run.assume("generation ids and the GC floor read the logical clock installed through the verif feature");
     run.finish();
